@@ -8,7 +8,7 @@ CONSTANTS
   MaxResumes = 3
   MaxCalls = 4
   MaxRestarts = 3
-  TrigKinds = {"manual", "msg", "flow_action"}
+  TrigKinds = {"manual", "msg", "flow_action", "campaign", "channel", "channel_gone", "optin", "optin_gone", "ticket", "ticket_gone"}
   ResumeKinds = {"msg", "timeout", "expiration"}
   NodeKinds = {"act", "failact", "split", "wait", "enter"}
   DfltChoices = {TRUE, FALSE}
